@@ -76,6 +76,8 @@ def _far_null(case):
 
 def classify(run, case, impl, model):
     kind = case.split()[0].split("/")[0]
+    if kind == "big":
+        return "%s/impl=%s/model=%s" % (case.split()[0], impl.split()[0], model.split()[0])
     if _far_null(case):
         kind += "+farnull"
     i, m = _f(impl), _f(model)
@@ -94,6 +96,8 @@ def violates(run, case, impl, model):
     # the property's predicates on the implementation: a panic; on a completely walked tree: bytes different from the
     # canonical-form specification, an error on a capability-free value, success on a value with capabilities, or one
     # of R (reads back Equal) / I (idempotent) / G (same bytes as the other layouts) false
+    if case.startswith("big"):
+        return impl != model    # implementation-side predicates of the property (R I K J X)
     i, m = _f(impl), _f(model)
     if i[0] == "panic" or i[1] == "panic":
         return True
